@@ -308,6 +308,10 @@ def narrowing(res, tier):
             if f.startswith("src/core/") or f.startswith("src/containers/"):
                 if re.search(r"float|double|precision|may change value", msg):
                     res.violation(R, f, "<copy path>", "%s:%d" % (f, line), line, "implicit narrowing conversion on the particle data copy path: " + msg[:200])
+            elif f.startswith("src/spacial/") and re.search(r"conversion from .(long )?double. to ", msg) and "may change value" in msg:
+                # position -> leaf: a value of the particle's (wider) type narrowed to the tree's coordinate type inside the ordering class: tests made
+                # on the wide value (the upper-face clamp) and arithmetic made on the narrowed one disagree near a face
+                res.violation(R, f, "<position to leaf>", "%s:%d" % (f, line), line, "a floating value is implicitly narrowed inside the ordering class (%s): with float coordinates and double particle data a position within rounding of the upper face passes the face test in double and is floored after rounding up in float - the coordinate is one past the grid" % msg[:160])
 
 
 def constcast_lint(facts, res):
@@ -642,6 +646,18 @@ def relative_position(facts, res):
         if len(ms) != 1:
             raise AnalysisBroken("%s::getIndexFromPosition not found" % cls)
         fn = ms[0]
+        # the conversion to the tree's coordinate type happens where the relative position enters getTreeCoordinate: its face test, its
+        # division and the floor then all see the same value (a face test on a wider value than the one floored lets a position within
+        # rounding of the upper face through, and the rounded quotient is one past the grid)
+        tc = [m for m in facts.methods_of(cls) if m["name"] == "getTreeCoordinate" and tbf.body(m) is not None and not m.get("inst")]
+        if len(tc) != 1:
+            raise AnalysisBroken("%s::getTreeCoordinate not found" % cls)
+        pt = tc[0]["params"][0].get("t", "").replace("const ", "").strip()
+        res.instance(R, "%s::getTreeCoordinate parameter" % cls, facts.loc(tc[0]), "relative position taken as `%s`" % pt)
+        n += 1
+        if pt not in ("RealType", "typename ConfigurationClass::RealType", "TbfMortonSpaceIndex::RealType", "TbfHilbertSpaceIndex::RealType") and not pt.endswith("::RealType"):
+            res.violation(R, tbf.rel(facts.path_of(tc[0])), tc[0]["qname"], "coordinate-type", tc[0]["l"][1],
+                          "getTreeCoordinate takes the relative position as `%s`, not as the tree's coordinate type: with double particle data in a float tree the upper-face test sees the double value while the quotient is stored (rounded) in the coordinate type - a position within float rounding of the face is placed one cell past the grid" % pt)
         fm = stages.FnModel(facts, fn)
         pos = fn["params"][0]["did"]
         calls = [c for c in walk(fm.body) if c.get("k") in ("CallExpr", "CXXMemberCallExpr") and tbf.callee_name(c) == "getTreeCoordinate"]
